@@ -59,14 +59,14 @@ func (s *Sim) Scenario() *ScenarioOut {
 	r := s.R
 	nb := nonceBook{}
 	out := &ScenarioOut{}
-	pick := r.Intn(11)
+	pick := r.Intn(13)
 	forced := false
 	if s.ForceScenario > 0 {
 		pick = s.ForceScenario - 1
 		s.ForceScenario = 0
 		forced = true
 	}
-	if pick >= 9 {
+	if !forced && pick >= 11 {
 		pick = 4 // the proposal life cycle is the longest template: give it more weight
 	}
 	switch pick {
@@ -225,6 +225,68 @@ func (s *Sim) Scenario() *ScenarioOut {
 		}
 		out.deliver = append(out.deliver, s.specN(nb, s.Keys[st.Owner], ctrlertypes.TRX_UNSTAKING, st.To, nil, &ctrlertypes.TrxPayloadUnstaking{TxHash: st.Hash}).Build())
 		out.deliver = append(out.deliver, s.specN(nb, joiner, ctrlertypes.TRX_STAKING, st.To, Rigo(uint64(st.Power)), nil).Build())
+	case 9: // several pieces of evidence against one validator in ONE block while it is a voter of an open proposal
+		var open bool
+		for _, p := range s.Props {
+			if p.Start <= s.Height+1 && p.End >= s.Height+2 {
+				open = true
+			}
+		}
+		v := s.someValidator()
+		if v == nil {
+			return nil
+		}
+		if !open {
+			// no open proposal: start one (template 4) and come back
+			ap := s.N.App.VerifGov().VerifActiveParams()
+			start := s.Height + 2
+			period := ap.MaxVotingPeriodBlocks()
+			opts := [][]byte{[]byte(optionPool[r.Intn(len(optionPool))]), []byte(optionPool[r.Intn(len(optionPool))])}
+			out.deliver = append(out.deliver, s.specN(nb, v, ctrlertypes.TRX_PROPOSAL, rtypes.ZeroAddress(), nil, &ctrlertypes.TrxPayloadProposal{Message: "d", StartVotingHeight: start,
+				VotingPeriodBlocks: period, ApplyingHeight: start + period + ap.LazyApplyingBlocks(), OptType: 257, Options: opts}).Build())
+			s.VoteAll = true
+			s.ForceScenario = 10
+			return out
+		}
+		n := r.Range(2, 3)
+		for i := 0; i < n; i++ {
+			s.PendingEvidence = append(s.PendingEvidence, v.Addr)
+		}
+		if w := s.someValidator(); w != nil && r.Bool() {
+			s.PendingEvidence = append(s.PendingEvidence, w.Addr)
+		}
+	case 10: // (needs restarts + CheckTx) restart; a rejected CheckTx reads A and B in the mempool view; the next block
+		// delivers A's transfer to B and, while the block is open, a follow-up of A reaches the mempool only
+		if !s.Opt.WithRestarts || !s.Opt.WithCheckTx {
+			return nil
+		}
+		us := s.userKeys(2)
+		if len(us) < 2 {
+			return nil
+		}
+		a, b := us[0], us[1]
+		s.RestartAfterCommit = true
+		s.PreBeginCheck = append(s.PreBeginCheck, func() []byte {
+			sp := s.base(a, ctrlertypes.TRX_TRANSFER, b.Addr, uint256.NewInt(uint64(r.Range(1, 1000))), nil)
+			sp.Nonce += 5 // rejected at the nonce check, after sender and receiver were read
+			return sp.Build()
+		})
+		s.scnA, s.scnB = a, b
+		s.ForceScenario = 12
+	case 11: // second phase of 10
+		a, b := s.scnA, s.scnB
+		if a == nil || b == nil {
+			return nil
+		}
+		sp := s.specN(nb, a, ctrlertypes.TRX_TRANSFER, b.Addr, uint256.NewInt(uint64(r.Range(1, 1000))), nil)
+		out.deliver = append(out.deliver, sp.Build())
+		next := sp.Nonce + 1
+		s.PendingCheck = append(s.PendingCheck, func() []byte {
+			f := s.base(a, ctrlertypes.TRX_TRANSFER, b.Addr, uint256.NewInt(uint64(r.Range(1, 1000))), nil)
+			f.Nonce = next
+			return f.Build()
+		})
+		s.scnA, s.scnB = nil, nil
 	case 6: // a contract transaction sent by / sent to / touching the proposer of this block
 		if !s.Opt.WithEVM || s.Cur == nil || len(s.Cur.Proposer) == 0 || len(s.Contracts) == 0 {
 			return nil
